@@ -317,7 +317,7 @@ for _f in sorted(_glob.glob(_os.path.join(_os.path.dirname(_os.path.abspath(__fi
 # 40-90 s (a quick tier of a few seconds stays green on broken trees: several seeded changes need 10^4-10^5 cases of their class).
 _QUICK = {"C01": 100000, "C02": 400000, "C03": 200000, "C04": 16000, "C05": 60000, "C06": 45000, "C07": 150000, "C08": 150000, "C09": 40000, "C10": 70000, "C11": 120000,
           "C12": 60000, "C13": 280, "C14": 300000, "C15": 1200000, "C16": 10000, "C17": 10000, "C18": 160000, "C19": 600000, "C20": 1200000}
-_THOROUGH = {"C12": 1000000, "C13": 3500, "C17": 300000, "C18": 1000000, "C16": 150000, "C02": 6000000, "C03": 4000000, "C07": 3000000, "C08": 3000000, "C14": 6000000,
+_THOROUGH = {"C12": 1000000, "C13": 3500, "C17": 150000, "C18": 300000, "C16": 150000, "C02": 6000000, "C03": 4000000, "C07": 3000000, "C08": 3000000, "C14": 6000000,
              "C15": 12000000, "C19": 6000000, "C20": 12000000, "C09": 900000}
 for _id, _n in _QUICK.items(): PROPS[_id]["quick"]["cases"] = _n
 for _id, _n in _THOROUGH.items(): PROPS[_id]["thorough"]["cases"] = _n
